@@ -63,7 +63,11 @@ def verify_function(prog, spec, con, mode='seq', options=None):
     for c in con.clauses:
         if c.kind == 'let':
             try:
-                env[c.extra['var']] = ('val', spec.eval(ex, c.expr, env, old, old))
+                if mode == 'tintf':
+                    # re-bound when a lock is acquired (spec.lock_env_step): kept in the state, not in the environment
+                    st.lets[c.extra['var']] = spec.eval(ex, c.expr, env, old, old)
+                else:
+                    env[c.extra['var']] = ('val', spec.eval(ex, c.expr, env, old, old))
             except EngineError:
                 pass
         elif c.kind in ('calls', 'ensures'):
@@ -156,6 +160,11 @@ def verify_function(prog, spec, con, mode='seq', options=None):
                 for g, t in after_g.items():
                     if g.startswith('view$'):
                         post_s.ghost[g] = t
+        if mode == 'tintf':
+            if getattr(stf, 'lk_old', None) is not None:
+                old_s = stf.lk_old
+            if getattr(stf, 'lk_post', None) is not None:
+                post_s = stf.lk_post.copy()
         for c in con.of('ghostsync'):
             # `ghostsync view(m) := expr`: the abstract contents of the map object are, by definition, the contents of
             # its current table at this (quiescent) point
@@ -177,7 +186,7 @@ def verify_function(prog, spec, con, mode='seq', options=None):
                 g = spec.eval_bool(ex, c.expr, env2, post_s, old_s)
                 ex.oblige(stf, '%s/%s/%s%s#%s' % (ex.tagstr(c), short, 'intf.' if mode == 'intf' else '', c.label or 'post%d' % c.ordinal, pid), g,
                           tags=list(c.tags) + extra_tags, where='%s:%d' % (c.file, c.line), kind='post')
-        if mode != 'intf':
+        if mode not in ('intf', 'tintf'):
             spec.frame_check(ex, con, env2, stf, old, short)
 
     ex.run_fn(con.fn, args, st, at_return, bindings=bindings)
